@@ -226,7 +226,7 @@ func runC09(c *Ctx) error {
 		}
 	}
 	for _, u := range units {
-		if u.text == "" {
+		if u.g != nil {
 			u.text = u.g.Render(nil)
 		}
 	}
